@@ -60,6 +60,10 @@ type recStore struct {
 	// so large that the store's make([]H, to-from) panics or exhausts memory); the proxy
 	// keeps the driver alive, records the call and reports the request as OPanic
 	crashed bool
+	// hook: after the first call of kind hookKind returned, run hookFn once
+	hookKind  string
+	hookFn    func()
+	hookFired bool
 }
 
 var errCrash = errors.New("c10: store call would crash the process")
@@ -68,10 +72,25 @@ const hugeSpan = 1 << 20
 
 var errInjected = errors.New("c10: injected store failure")
 
+// rec logs a call that has just returned from the real store; when the armed hook names
+// its kind, the store is changed now, i.e. before the server makes its next call.
 func (r *recStore) rec(c call) {
 	r.mu.Lock()
 	r.log = append(r.log, c)
+	k := c.kind
+	if k == "getrangebyheight" || k == "getbyheight" {
+		k = "getrange"
+	}
+	fn := r.hookFn
+	fire := fn != nil && r.hookKind == k
+	if fire {
+		r.hookFn = nil
+		r.hookFired = true
+	}
 	r.mu.Unlock()
+	if fire {
+		fn()
+	}
 }
 
 func (r *recStore) take() []call {
@@ -169,23 +188,27 @@ func (r *recStore) guarded(kind string, from, to uint64, f func() ([]H, error)) 
 }
 
 func (r *recStore) Tail(ctx context.Context) (H, error) {
+	h, err := r.inner.Tail(ctx)
 	r.rec(call{kind: "tail"})
-	return r.inner.Tail(ctx)
+	return h, err
 }
 
 func (r *recStore) Height() uint64 {
+	h := r.inner.Height()
 	r.rec(call{kind: "height"})
-	return r.inner.Height()
+	return h
 }
 
 func (r *recStore) Has(ctx context.Context, hash header.Hash) (bool, error) {
+	ok, err := r.inner.Has(ctx, hash)
 	r.rec(call{kind: "has", hash: append([]byte(nil), hash...)})
-	return r.inner.Has(ctx, hash)
+	return ok, err
 }
 
 func (r *recStore) HasAt(ctx context.Context, height uint64) bool {
+	ok := r.inner.HasAt(ctx, height)
 	r.rec(call{kind: "hasat", a: height})
-	return r.inner.HasAt(ctx, height)
+	return ok
 }
 
 func (r *recStore) Append(ctx context.Context, hs ...H) error {
@@ -211,18 +234,17 @@ var _ header.Store[H] = (*recStore)(nil)
 type recDS struct {
 	datastore.Batching
 	mu   sync.Mutex
-	on   bool
-	keys []string // "" for a read that found nothing
+	on     bool
+	paused bool
+	keys   []string
+	found  []bool
 }
 
 func (d *recDS) note(k datastore.Key, found bool) {
 	d.mu.Lock()
-	if d.on {
-		if found {
-			d.keys = append(d.keys, k.String())
-		} else {
-			d.keys = append(d.keys, "")
-		}
+	if d.on && !d.paused {
+		d.keys = append(d.keys, k.String())
+		d.found = append(d.found, found)
 	}
 	d.mu.Unlock()
 }
@@ -250,17 +272,24 @@ func (d *recDS) Query(ctx context.Context, q dsq.Query) (dsq.Results, error) {
 	return d.Batching.Query(ctx, q)
 }
 
-func (d *recDS) start() {
+// pause suspends logging while the driver itself changes the store.
+func (d *recDS) pause(p bool) {
 	d.mu.Lock()
-	d.on, d.keys = true, nil
+	d.paused = p
 	d.mu.Unlock()
 }
 
-func (d *recDS) stop() []string {
+func (d *recDS) start() {
+	d.mu.Lock()
+	d.on, d.keys, d.found = true, nil, nil
+	d.mu.Unlock()
+}
+
+func (d *recDS) stop() ([]string, []bool) {
 	d.mu.Lock()
 	defer d.mu.Unlock()
 	d.on = false
-	return d.keys
+	return d.keys, d.found
 }
 
 // ---------------------------------------------------------------- store configurations
@@ -276,6 +305,7 @@ type cfg struct {
 	batch       int // write batch size
 	noSync      bool // leave the appended headers in the write batch (no Sync, no pruning possible)
 	cache       int  // store cache size (0 = default)
+	reserve     int  // further headers of the same chain, appended while requests are served
 }
 
 type world struct {
@@ -295,6 +325,7 @@ type world struct {
 	keyHt  map[string]uint64 // datastore key -> height of the header it belongs to
 	tl, hd uint64            // Tail/Head heights (0, 0 for the empty store), from the store's pointers
 	expect []H               // the chain Tail..Head as constructed (only used to pick requests)
+	all    []H               // the whole constructed chain from cfg.first on, including the reserve
 	pend   []pending         // observations, rendered once the store content has been read back
 }
 
@@ -304,7 +335,7 @@ type pending struct {
 	class   string
 	rp      reply
 	log     []call
-	disk    []uint64
+	disk    []string
 	reqTerm string
 	reqKind string
 }
@@ -343,15 +374,17 @@ func build(t *testing.T, c cfg, reg *vhdr.Registry) *world {
 	var all []H
 	if c.last >= c.first {
 		prev := []byte(fmt.Sprintf("parent-of-%s-%d", c.name, c.first))
-		all = vhdr.Chain("c10", c.first, int(c.last-c.first+1), 1_000_000, 1000, prev)
+		all = vhdr.Chain("c10", c.first, int(c.last-c.first+1)+c.reserve, 1_000_000, 1000, prev)
+		w.all = all
 		// number the hashes in chain order (lets the store be rendered compactly)
 		reg.ID(prev)
 		for _, h := range all {
 			reg.ID(h.Hash())
 		}
 		known(all, prev)
-		for off := 0; off < len(all); off += 37 {
-			end := min(off+37, len(all))
+		now := all[:c.last-c.first+1]
+		for off := 0; off < len(now); off += 37 {
+			end := min(off+37, len(now))
 			if err := st.Append(ctx, all[off:end]...); err != nil {
 				t.Fatal(err)
 			}
@@ -619,6 +652,11 @@ func uvarint(b []byte) (uint64, int) {
 // ---------------------------------------------------------------- one case
 
 func (w *world) one(em *emit.Writer, raw []byte, fault int, class string) {
+	w.pend = append(w.pend, w.observe(raw, fault, class))
+}
+
+// observe serves one request and collects everything observable about it.
+func (w *world) observe(raw []byte, fault int, class string) pending {
 	reqTerm, reqKind := w.classify(raw)
 	w.rec.take()
 	w.rec.fault = fault
@@ -627,7 +665,7 @@ func (w *world) one(em *emit.Writer, raw []byte, fault int, class string) {
 	rp := w.exchange(raw)
 	synctest.Wait() // the handler has returned (or is parked for good)
 	el := time.Since(t0)
-	keys := w.ds.stop()
+	keys, found := w.ds.stop()
 	log := w.rec.take()
 	w.rec.fault = 0
 	if w.rec.crashed {
@@ -638,57 +676,263 @@ func (w *world) one(em *emit.Writer, raw []byte, fault int, class string) {
 		// answered, but only after more than RequestTimeout + WriteDeadline
 		rp.term, rp.kind = "OHang", "late"
 	}
-	disk := make([]uint64, len(keys))
+	disk := make([]string, len(keys))
 	for i, k := range keys {
-		disk[i] = w.keyHt[k] // 0: a read that found nothing (or a key that belongs to no header)
+		// height of the header the key belongs to (0: a key of no header of this chain), and whether it was there
+		disk[i] = fmt.Sprintf("(%d, %s)", w.keyHt[k], emit.B(found[i]))
 	}
-	w.pend = append(w.pend, pending{raw: raw, fault: fault, class: class, rp: rp, log: log, disk: disk, reqTerm: reqTerm, reqKind: reqKind})
+	return pending{raw: raw, fault: fault, class: class, rp: rp, log: log, disk: disk, reqTerm: reqTerm, reqKind: reqKind}
 }
 
-// emitAll renders the collected observations as cases.
+// emitAll renders the collected observations of a quiescent store as cases.
 func (w *world) emitAll(em *emit.Writer) {
 	for _, p := range w.pend {
-		var ranges, gets, disk []string
-		o1, other := 0, 0
-		for _, c := range p.log {
-			switch c.kind {
-			case "getrange", "getrangebyheight":
-				ranges = append(ranges, fmt.Sprintf("(%d, %d, %d)", c.a, c.b, c.returned))
-			case "getbyheight":
-				ranges = append(ranges, fmt.Sprintf("(%d, %d, %d)", c.a, c.a+1, c.returned))
-			case "get":
-				gets = append(gets, emit.N(w.reg.ID(c.hash)))
-			case "hasat", "head", "tail", "height", "has":
-				o1++
-			default:
-				other++
+		w.render(em, p, w.storeTerm(), "KGet", "None", nil)
+	}
+}
+
+// render turns one observation into a case. hook/st2: the store change during the request.
+func (w *world) render(em *emit.Writer, p pending, st1, hook, st2 string, extra map[string]any) {
+	var ranges, gets, disk []string
+	o1, other := 0, 0
+	for _, c := range p.log {
+		switch c.kind {
+		case "getrange", "getrangebyheight":
+			ranges = append(ranges, fmt.Sprintf("(%d, %d, %d)", c.a, c.b, c.returned))
+		case "getbyheight":
+			ranges = append(ranges, fmt.Sprintf("(%d, %d, %d)", c.a, c.a+1, c.returned))
+		case "get":
+			gets = append(gets, emit.N(w.reg.ID(c.hash)))
+		case "hasat", "head", "tail", "height", "has":
+			o1++
+		default:
+			other++
+		}
+		em.Count("store_call", c.kind)
+	}
+	disk = p.disk
+	faultTerm := []string{"FNone", "FSlow", "FErr"}[p.fault]
+	term := fmt.Sprintf("Case10 %s %s %s %s %s %s %s %d %d %s %s", st1, faultTerm, p.reqTerm, p.rp.term,
+		emit.List(ranges), emit.List(gets), emit.List(disk), o1, other, hook, st2)
+	nontriv := p.rp.frames > 0 || len(ranges) > 0 || len(gets) > 0
+	d := map[string]any{"cfg": w.cfg.name, "tail": w.tl, "head": w.hd, "req": p.reqTerm, "raw": fmt.Sprintf("%x", p.raw),
+		"fault": faultTerm, "reply": p.rp.term, "ranges": ranges, "gets": gets, "disk_reads": disk, "class": p.class}
+	for k, v := range extra {
+		d[k] = v
+	}
+	em.Add(term, d, w.cfg.name+"/"+p.class+"/"+p.rp.kind, nontriv)
+	em.Count("reply", p.rp.kind)
+	em.Count("request", p.reqKind)
+	em.Count("fault", faultTerm)
+	em.Count("range_calls", fmt.Sprint(len(ranges)))
+	dk := "0"
+	switch n := len(p.disk); {
+	case n > 64:
+		dk = ">64"
+	case n > 8:
+		dk = "9-64"
+	case n > 0:
+		dk = "1-8"
+	}
+	em.Count("datastore_reads", dk)
+}
+
+// ---------------------------------------------------------------- the store changes during a request
+
+// mutation of the real store, applied by the proxy between two of the server's calls
+type mutation struct {
+	name   string
+	grow   uint64 // append this many headers above the head (and Sync)
+	prune  uint64 // then move the tail up by this many heights ...
+	pruneP bool   // ... or, if set, to (old head + prune): everything the request could have seen is gone
+	shrink uint64 // or: delete this many headers from the head side
+}
+
+func (w *world) snapshot(t *testing.T) []H {
+	ctx, cancel := context.WithTimeout(context.Background(), time.Hour)
+	defer cancel()
+	hd, err := w.st.Head(ctx)
+	if err != nil {
+		w.tl, w.hd = 0, 0
+		return nil
+	}
+	tl, err := w.st.Tail(ctx)
+	if err != nil {
+		t.Fatal(err)
+	}
+	w.tl, w.hd = tl.Height(), hd.Height()
+	out := make([]H, 0, w.hd-w.tl+1)
+	for h := w.tl; h <= w.hd; h++ {
+		x, err := w.st.GetByHeight(ctx, h)
+		if err != nil {
+			t.Fatalf("cfg %s: snapshot at height %d: %v", w.cfg.name, h, err)
+		}
+		out = append(out, x)
+	}
+	return out
+}
+
+// at returns the constructed header of the given height (the chain the store is fed from).
+func (w *world) at(h uint64) H { return w.all[h-w.cfg.first] }
+
+func (w *world) apply(m mutation) error {
+	ctx, cancel := context.WithTimeout(context.Background(), time.Hour)
+	defer cancel()
+	tl, hd := w.tl, w.hd
+	if m.grow > 0 {
+		hs := make([]H, 0, m.grow)
+		for h := hd + 1; h <= hd+m.grow; h++ {
+			hs = append(hs, w.at(h))
+		}
+		if err := w.st.Append(ctx, hs...); err != nil {
+			return err
+		}
+		if err := w.st.Sync(ctx); err != nil {
+			return err
+		}
+	}
+	if m.prune > 0 {
+		to := tl + m.prune
+		if m.pruneP {
+			to = hd + m.prune
+		}
+		if err := w.st.DeleteRange(ctx, tl, to); err != nil {
+			return err
+		}
+	}
+	if m.shrink > 0 {
+		if err := w.st.DeleteRange(ctx, hd-m.shrink+1, hd+1); err != nil {
+			return err
+		}
+	}
+	return nil
+}
+
+// dynStep serves one request while the store is changed right after the first call of
+// kind hook returned to the server.
+func (w *world) dynStep(t *testing.T, em *emit.Writer, hook string, m mutation, raw []byte, class string) {
+	st1 := w.snapshot(t)
+	var merr error
+	w.rec.hookKind, w.rec.hookFired = hook, false
+	w.rec.hookFn = func() {
+		w.ds.pause(true)
+		merr = w.apply(m)
+		w.ds.pause(false)
+	}
+	p := w.observe(raw, 0, class)
+	fired := w.rec.hookFired
+	w.rec.hookFn = nil
+	if merr != nil {
+		t.Fatalf("cfg %s: changing the store (%s) failed: %v", w.cfg.name, m.name, merr)
+	}
+	tl1, hd1 := w.tl, w.hd
+	st1Term := fmt.Sprintf("(Store %s [])", w.runTerm(st1))
+	hookTerm := map[string]string{"hasat": "KHasAt", "head": "KHead", "tail": "KTail", "getrange": "KGetRange", "get": "KGet"}[hook]
+	extra := map[string]any{"hook": hook, "change": m.name, "fired": fired, "tail": tl1, "head": hd1}
+	if !fired {
+		em.Count("store_change", "not-reached")
+		w.render(em, p, st1Term, "KGet", "None", extra)
+		return
+	}
+	st2 := w.snapshot(t)
+	extra["tail_after"], extra["head_after"] = w.tl, w.hd
+	em.Count("store_change", hook+"/"+m.name)
+	w.render(em, p, st1Term, hookTerm, fmt.Sprintf("(Some (Store %s []))", w.runTerm(st2)), extra)
+}
+
+// runDyn drives one world through requests during which the store changes.
+func (w *world) runDyn(t *testing.T, em *emit.Writer, rng *emit.Rand, full bool, nrand int) {
+	muts := []mutation{
+		{name: "grow1", grow: 1}, {name: "grow2", grow: 2}, {name: "grow3", grow: 3}, {name: "grow63", grow: 63},
+		{name: "grow64", grow: 64}, {name: "grow65", grow: 65}, {name: "grow80", grow: 80},
+		{name: "prune1", prune: 1}, {name: "prune2", prune: 2}, {name: "prune30", prune: 30}, {name: "prune-to-head"},
+		{name: "grow2prune1", grow: 2, prune: 1}, {name: "grow80prune40", grow: 80, prune: 40},
+		{name: "grow5prune-past-old-head", grow: 5, prune: 2, pruneP: true},
+		{name: "shrink1", shrink: 1}, {name: "shrink2", shrink: 2}, {name: "shrink5", shrink: 5},
+	}
+	reqs := func(m mutation) [][2]uint64 {
+		tl, hd := w.tl, w.hd
+		hd2, tl2 := hd+m.grow-m.shrink, tl+m.prune
+		if m.pruneP {
+			tl2 = hd + m.prune
+		}
+		mid := tl + (hd-tl)/2
+		return [][2]uint64{
+			{hd, 2}, {hd, 1}, {hd, 3}, {hd - 1, 3}, {hd - 1, 2}, {hd + 1, 1}, {hd + 1, 2}, {hd, 64}, {hd, 65},
+			{hd2, 1}, {hd2 - 1, 2}, {hd2 - 1, 3}, {hd2 + 1, 1}, {hd - 1, hd2 - hd + 2}, {hd - 1, hd2 - hd + 3},
+			{tl, 1}, {tl, 2}, {tl - 1, 2}, {tl2, 1}, {tl2, 2}, {tl2 - 1, 2}, {tl2 - 1, 3},
+			{mid, hd - mid + 1}, {mid, hd - mid + 2}, {mid, 64}, {hd - 62, 64}, {hd - 63, 64}, {hd - 64, 64},
+			{hd2 - 62, 64}, {hd2 - 63, 64}, {0, 1},
+		}
+	}
+	usable := func(m mutation) bool {
+		// keep at least one header, and only delete what exists
+		size := w.hd - w.tl + 1
+		if m.shrink >= size || (!m.pruneP && m.prune >= size+m.grow) {
+			return false
+		}
+		return w.hd+m.grow+200 < w.cfg.first+uint64(len(w.all))
+	}
+	upkeep := func() bool {
+		// keep the window between 80 and 160 headers so that every request class exists
+		w.snapshot(t)
+		var m mutation
+		switch size := w.hd - w.tl + 1; {
+		case size < 80:
+			m = mutation{grow: 120 - size}
+		case size > 160:
+			m = mutation{prune: size - 100}
+		default:
+			return true
+		}
+		if !usable(m) {
+			return false
+		}
+		if err := w.apply(m); err != nil {
+			t.Fatal(err)
+		}
+		w.snapshot(t)
+		return true
+	}
+	step := func(hook string, m mutation, idx int, class string) bool {
+		if !upkeep() || !usable(m) {
+			return false
+		}
+		if m.name == "prune-to-head" {
+			m.prune = w.hd - w.tl
+		}
+		rs := reqs(m) // relative to the store as it is now
+		if idx < 0 {
+			idx = rng.Intn(len(rs))
+		}
+		w.dynStep(t, em, hook, m, originReq(rs[idx][0], rs[idx][1]), class)
+		return true
+	}
+	if full {
+		n := len(reqs(muts[0]))
+		for _, hook := range []string{"hasat", "head"} {
+			for _, m := range muts {
+				for i := 0; i < n; i++ {
+					if !step(hook, m, i, "dyn") {
+						return
+					}
+				}
 			}
-			em.Count("store_call", c.kind)
 		}
-		for _, d := range p.disk {
-			disk = append(disk, emit.N(d))
+	}
+	hooks := []string{"hasat", "head", "getrange", "tail", "hasat", "head"}
+	for i := 0; i < nrand; i++ {
+		if !step(hooks[rng.Intn(len(hooks))], muts[rng.Intn(len(muts))], -1, "dyn-random") {
+			return
 		}
-		faultTerm := []string{"FNone", "FSlow", "FErr"}[p.fault]
-		term := fmt.Sprintf("Case10 %s %s %s %s %s %s %s %d %d", w.storeTerm(), faultTerm, p.reqTerm, p.rp.term,
-			emit.List(ranges), emit.List(gets), emit.List(disk), o1, other)
-		nontriv := p.rp.frames > 0 || len(ranges) > 0 || len(gets) > 0
-		em.Add(term, map[string]any{"cfg": w.cfg.name, "tail": w.tl, "head": w.hd, "req": p.reqTerm, "raw": fmt.Sprintf("%x", p.raw),
-			"fault": faultTerm, "reply": p.rp.term, "ranges": ranges, "gets": gets, "disk_reads": disk, "class": p.class},
-			w.cfg.name+"/"+p.class+"/"+p.rp.kind, nontriv)
-		em.Count("reply", p.rp.kind)
-		em.Count("request", p.reqKind)
-		em.Count("fault", faultTerm)
-		em.Count("range_calls", fmt.Sprint(len(ranges)))
-		dk := "0"
-		switch n := len(p.disk); {
-		case n > 64:
-			dk = ">64"
-		case n > 8:
-			dk = "9-64"
-		case n > 0:
-			dk = "1-8"
-		}
-		em.Count("datastore_reads", dk)
+	}
+	// a hash request and a head request while the store changes, and the wipe as the last change
+	if upkeep() {
+		w.dynStep(t, em, "get", mutation{name: "grow2", grow: 2}, hashReq(w.at(w.hd).Hash(), 1), "dyn-hash")
+		w.snapshot(t)
+		w.dynStep(t, em, "head", mutation{name: "grow2", grow: 2}, originReq(0, 1), "dyn-head")
+		w.snapshot(t)
+		w.dynStep(t, em, "hasat", mutation{name: "wipe", prune: w.hd - w.tl + 1}, originReq(w.hd, 2), "dyn-wipe")
 	}
 }
 
@@ -740,6 +984,22 @@ func TestC10(t *testing.T) {
 			w.run(em, rng, thorough)
 			w.readBack(t)
 			w.emitAll(em)
+		})
+	}
+	// the store changes while a request is served
+	dyn := []cfg{
+		{name: "dynA", first: 1, last: 140, tail: 40, reserve: 60000},
+		{name: "dynB", first: 7, last: 120, tail: 30, reserve: 30000, cache: 4, batch: 8},
+	}
+	for i, c := range dyn {
+		synctest.Test(t, func(t *testing.T) {
+			w := build(t, c, reg)
+			defer w.close(t)
+			nrand := 120
+			if thorough {
+				nrand = 600
+			}
+			w.runDyn(t, em, rng, i == 0 || thorough, nrand)
 		})
 	}
 	if thorough {
